@@ -103,8 +103,11 @@ NewRef(m) == VRef(Len(m.heap) + 1)
 
 \* ---- equality / ordering on machine values ("T" / "F" / "U" = not specified) --------
 RECURSIVE EqV(_, _, _)
+OtherTok(x) == IsTok(x) /\ ~IsSm(x)
 EqV(m, a, b) ==
-  IF IsUnspec(a) \/ IsUnspec(b) \/ IsTok(a) \/ IsTok(b) THEN "U"
+  IF IsUnspec(a) \/ IsUnspec(b) \/ OtherTok(a) \/ OtherTok(b) THEN "U"
+  ELSE IF IsSm(a) /\ IsSm(b) THEN (IF a.i = b.i THEN "T" ELSE "F")
+  ELSE IF (IsSm(a) \/ IsSm(b)) /\ a.t \notin {"fn", "nat", "clo"} /\ b.t \notin {"fn", "nat", "clo"} THEN "F"
   ELSE IF a.t \in {"fn", "nat", "clo"} \/ b.t \in {"fn", "nat", "clo"} THEN "U"
   ELSE IF a.t # b.t THEN "F"
   ELSE CASE a.t = "nil" -> "T"
@@ -123,7 +126,7 @@ EqV(m, a, b) ==
 IsNumV(x) == x.t \in {"int", "real"}
 \* op \in {"Less", "LessOrEq"}
 CmpV(m, op, a, b) ==
-  IF IsUnspec(a) \/ IsUnspec(b) \/ IsTok(a) \/ IsTok(b) THEN "U"
+  IF IsUnspec(a) \/ IsUnspec(b) \/ OtherTok(a) \/ OtherTok(b) THEN "U"
   ELSE IF a.t \in {"fn", "nat", "clo"} \/ b.t \in {"fn", "nat", "clo"} THEN "U"
   ELSE IF IsNumV(a) \/ IsNumV(b) THEN
        LET c == NumCmp(a, b, TabLen(m, a), TabLen(m, b)) IN
@@ -138,7 +141,7 @@ CmpV(m, op, a, b) ==
 Tri(m, r) == IF r = "U" THEN Unspec ELSE VBool(r = "T")
 \* (the tokens "tiny" / "-tiny" are non-zero reals of very small magnitude: true like every non-zero number)
 TruthV(m, x) == IF IsUnspec(x) THEN "U"
-                ELSE IF IsTok(x) THEN (IF x.s \in {"tiny", "-tiny"} THEN "T" ELSE "U")
+                ELSE IF IsTok(x) THEN (IF x.s \in {"tiny", "-tiny", "sm"} THEN "T" ELSE "U")
                 ELSE IF Truthy(x, TabLen(m, x)) THEN "T" ELSE "F"
 LenV(m, x) == CASE x.t = "nil" -> 0 [] x.t \in {"int", "real"} -> 1 [] x.t = "str" -> x.i
                 [] x.t = "ref" -> TabLen(m, x) [] OTHER -> 0
@@ -339,7 +342,7 @@ ReadBase(m, name) == IF FindCell(m, name) # 0 THEN m.cells[FindCell(m, name)]
 EvalCard(m, f) ==
   LET card == CardAt(m.pi, f.ix)  kd == card.k IN
   CASE kd = "ScalarInt" -> Yield(m, IF card.s = "big" THEN VBig(card.i) ELSE VInt(card.i))
-    [] kd = "ScalarFloat" -> Yield(m, IF card.s # "" THEN VTok(card.s) ELSE VReal(card.i, card.e))
+    [] kd = "ScalarFloat" -> Yield(m, IF card.s = "sm" THEN VSm(card.i) ELSE IF card.s # "" THEN VTok(card.s) ELSE VReal(card.i, card.e))
     [] kd = "StringLiteral" -> Yield(m, VStr(card.s, card.i))
     [] kd = "ScalarNil" -> Yield(m, VNil)
     [] kd = "CreateTable" -> Yield(NewTable(m, <<>>), NewRef(m))
